@@ -61,7 +61,7 @@ def main():
         },
         "engines": [
             {"name": "symx", "path": "/verif/vf/symx.py", "serves_properties": sorted(allc), "kind_free_text": "fork-by-replay symbolic executor (proxy objects + z3) running the real python-pest code; regex C engine modelled at AST level"},
-            {"name": "crosshair", "path": "/verif/ch", "serves_properties": [p for p in ("C12", "C13", "C14", "C09") if p in allc], "kind_free_text": "CrossHair 0.0.110 (z3) on string-building leaf functions"},
+            {"name": "crosshair", "path": "/verif/ch", "serves_properties": [p for p in ("C13", "C14") if p in allc], "kind_free_text": "CrossHair 0.0.110 (z3): independent second engine on the string leaf functions (line_col, error_context, join_with_limit), thorough tier only"},
         ],
         "checks": checks,
         "not_applicable": na,
